@@ -730,3 +730,11 @@ func init() {
 		return e.strConst(out)
 	})
 }
+
+func init() {
+	// the log writer's trigger channel (log package init is not executed unless
+	// the log package itself is under test): a channel nobody receives from
+	reg("github.com/safing/portbase/log.TriggerWriterChannel", func(fr *frame, args []Value) Value {
+		return &ChanV{cap: 0, id: fr.e.sched.nextChanID()}
+	})
+}
